@@ -125,7 +125,7 @@ def _xarray(
             continue
 
         if axes == axes_mapping[name]:
-            coord_mapping[axes][name].append(array)
+            coord_mapping[axes][name].append(_keep_values(array))
 
     coords = {}
     for axes, dct in coord_mapping.items():
@@ -175,6 +175,28 @@ def _xarray_dataset(
         else:
             ds[name] = array if isinstance(array, np.ndarray) else ((), _as_0d(array))
     return ds
+
+
+def _keep_values(array: Any) -> Any:
+    """Return a mapped input in a form whose elements xarray leaves as they are.
+
+    NumPy turns a list that mixes strings with other values into an array of
+    strings (``[0, "a"]`` becomes ``["0", "a"]``), while the map passes the
+    elements themselves to the functions; such a list is returned as an object
+    array holding the original elements.
+    """
+    if isinstance(array, np.ndarray) or not isinstance(array, list | tuple | range):
+        return array
+    try:
+        converted = np.asarray(array)
+    except ValueError:  # a ragged nested sequence
+        return array
+    if converted.dtype.kind not in "US":
+        return array
+    kept = np.asarray(array, dtype=object)
+    if kept.shape != converted.shape or all(isinstance(x, str | bytes) for x in kept.flat):
+        return array
+    return kept
 
 
 def _as_0d(value: Any) -> Any:
